@@ -98,7 +98,7 @@ inline const std::vector<std::string>& alphabet(sm::VClass c, const FieldDef& f)
 	static const std::vector<std::string> dt { "19700101", "20240229", "20991231" };
 	static const std::vector<std::string> my { "197001", "209912", "20240229" };
 	static const std::vector<std::string> data { "d", "a=b", "0123456789" };
-	static const std::vector<std::string> lens { "0", "1", "5" };
+	static const std::vector<std::string> lens { "0", "1", "5", "2048", "8192" };
 	static const std::vector<std::string> seqs { "0", "1", "7", "10", "2147483647" };	// SeqNum / TagNum / NumInGroup domain: non-negative
 	static const std::vector<std::string> tagn { "1", "7", "9999" };
 	switch (c) {
